@@ -9,6 +9,7 @@ about WHERE the device sends (ARP cache, route table: opaque).  `C06_rtr_safe`, 
 import PrimaiteModel.Model.FilterFwd
 import PrimaiteModel.Props.C06Class
 import PrimaiteModel.Props.C06Deny
+import PrimaiteModel.Gen.FilterSoft
 namespace Primaite.Filter
 open Primaite Primaite.Acl Primaite.Cut
 
@@ -465,6 +466,11 @@ theorem C06_terminal_confined_unless_authorised (hops : List Ip) (x : RtrOpaque 
         simp only [hs]
         rfl
     · rfl
+
+/-- the source shapes `rtrStd` and `TerminalGate` follow -/
+theorem C06_gen_rtr_model :
+    Gen.FilterSoft.routerArpTargets = routerArpTargets ∧ Gen.FilterSoft.routerIcmpReplyDst = routerIcmpReplyDst ∧
+    Gen.FilterSoft.terminalExecGuards = terminalExecGuards ∧ Gen.FilterSoft.forwardWrites = forwardWrites := by decide
 
 end terminal
 
